@@ -298,6 +298,7 @@ func TestZZReplay(t *testing.T) {
 	for i := start; i < len(cases); i++ {
 		c := &cases[i]
 		res := zzResult{ID: c.ID}
+		fmt.Fprintf(os.Stderr, "\nZZCASE-BEGIN %d\n", c.ID)
 		done := make(chan struct{})
 		go func() {
 			defer close(done)
@@ -343,6 +344,7 @@ func TestZZReplay(t *testing.T) {
 			// assertions that failed before the case stalled still count (the stall is often their consequence)
 			res.Failed = append(append([]string(nil), zzFailed...), zzclock.ZZGhostFailed()...)
 		}
+		fmt.Fprintf(os.Stderr, "\nZZCASE-END %d\n", c.ID)
 		b, _ := json.Marshal(res)
 		out.Write(append(b, '\n'))
 		if timedOut {
@@ -871,7 +873,7 @@ func harnessFuncs(file string) ([]string, error) {
 }
 
 // runNative executes the cases of one package natively and returns the results by case id.
-func runNative(repo, verif, pkgDir, pkgName string, harnessFiles []string, rewrite func(scratch string, replace map[string]string) error, depPkgs []string, cases []nativeCase, keepDir string) (map[int]nativeResult, string, error) {
+func runNative(repo, verif, pkgDir, pkgName string, harnessFiles []string, rewrite func(scratch string, replace map[string]string) error, depPkgs []string, cases []nativeCase, keepDir string, racePkgs []string) (map[int]nativeResult, string, error) {
 	scratch, err := os.MkdirTemp("", "gosym-native-")
 	if err != nil {
 		return nil, "", err
@@ -900,7 +902,22 @@ func runNative(repo, verif, pkgDir, pkgName string, harnessFiles []string, rewri
 	if err != nil {
 		return nil, "", err
 	}
-	clkPath, err := write("zz_verif_clock.go", clockFile)
+	clkSrc := clockFile
+	if len(racePkgs) > 0 {
+		// under the race detector the replay scheduler must not create happens-before edges of its own
+		clkSrc = raceClockFile()
+		sp, err := write("zz_verif_spin.go", spinFile)
+		if err != nil {
+			return nil, "", err
+		}
+		sa, err := write("zz_verif_spin_amd64.s", spinAsm)
+		if err != nil {
+			return nil, "", err
+		}
+		replace[filepath.Join(repo, "pkg/errors", "zz_verif_spin.go")] = sp
+		replace[filepath.Join(repo, "pkg/errors", "zz_verif_spin_amd64.s")] = sa
+	}
+	clkPath, err := write("zz_verif_clock.go", clkSrc)
 	if err != nil {
 		return nil, "", err
 	}
@@ -941,12 +958,17 @@ func runNative(repo, verif, pkgDir, pkgName string, harnessFiles []string, rewri
 	}
 	outPath := filepath.Join(scratch, "out.jsonl")
 	results := map[int]nativeResult{}
+	races := map[int][]string{}
 	startIdx := 0
 	var log strings.Builder
 	for attempt := 0; attempt < len(cases)+2 && startIdx < len(cases); attempt++ {
-		cmd := exec.Command("go", "test", "-vet=off", "-count=1", "-overlay", ovPath, "-run", "^TestZZReplay$", "-timeout", "20m", "./"+pkgDir)
+		args := []string{"test", "-vet=off", "-count=1", "-overlay", ovPath, "-run", "^TestZZReplay$", "-timeout", "20m"}
+		if len(racePkgs) > 0 {
+			args = append(args, "-race", "-v")
+		}
+		cmd := exec.Command("go", append(args, "./"+pkgDir)...)
 		cmd.Dir = repo
-		cmd.Env = append(os.Environ(), "GOFLAGS=-mod=mod", "GOPROXY=off", "ZZ_CASES="+casesPath, "ZZ_OUT="+outPath, fmt.Sprintf("ZZ_START=%d", startIdx))
+		cmd.Env = append(os.Environ(), "GOFLAGS=-mod=mod", "GOPROXY=off", "GORACE=exitcode=0", "ZZ_CASES="+casesPath, "ZZ_OUT="+outPath, fmt.Sprintf("ZZ_START=%d", startIdx))
 		done := make(chan struct{})
 		var outB []byte
 		var runErr error
@@ -958,6 +980,11 @@ func runNative(repo, verif, pkgDir, pkgName string, harnessFiles []string, rewri
 			<-done
 		}
 		log.Write(outB)
+		if len(racePkgs) > 0 {
+			for id, ds := range parseRaceReports(string(outB), racePkgs) {
+				races[id] = append(races[id], ds...)
+			}
+		}
 		// read results so far
 		n := 0
 		if f, err := os.Open(outPath); err == nil {
@@ -989,6 +1016,12 @@ func runNative(repo, verif, pkgDir, pkgName string, harnessFiles []string, rewri
 			break
 		}
 	}
+	for id, ds := range races {
+		if r, ok := results[id]; ok {
+			r.Failed = append(r.Failed, ds...)
+			results[id] = r
+		}
+	}
 	if keepDir != "" {
 		os.MkdirAll(keepDir, 0o755)
 		if ents, err := os.ReadDir(scratch); err == nil {
@@ -1011,7 +1044,11 @@ func runNative(repo, verif, pkgDir, pkgName string, harnessFiles []string, rewri
 		}
 		ov2, _ := json.MarshalIndent(map[string]interface{}{"Replace": rep2}, "", " ")
 		os.WriteFile(filepath.Join(keepDir, "overlay.json"), ov2, 0o644)
-		script := fmt.Sprintf("#!/bin/sh\n# replays the recorded counterexample against /repo's working tree; prints the native result (failed = violated assertion labels)\nrm -f %s\ncd %s && GOFLAGS=-mod=mod GOPROXY=off ZZ_CASES=%s ZZ_OUT=%s ZZ_START=0 go test -vet=off -count=1 -overlay %s -run '^TestZZReplay$' ./%s\ncat %s\n", filepath.Join(keepDir, "replay-out.jsonl"), repo, filepath.Join(keepDir, "cases.json"), filepath.Join(keepDir, "replay-out.jsonl"), filepath.Join(keepDir, "overlay.json"), pkgDir, filepath.Join(keepDir, "replay-out.jsonl"))
+		raceFlag := ""
+		if len(racePkgs) > 0 {
+			raceFlag = " -race -v" // the data race is in the race detector's report (WARNING: DATA RACE) on this forced schedule
+		}
+		script := fmt.Sprintf("#!/bin/sh\n# replays the recorded counterexample against /repo's working tree; prints the native result (failed = violated assertion labels)\nrm -f %s\ncd %s && GOFLAGS=-mod=mod GOPROXY=off ZZ_CASES=%s ZZ_OUT=%s ZZ_START=0 go test -vet=off -count=1%s -overlay %s -run '^TestZZReplay$' ./%s\ncat %s\n", filepath.Join(keepDir, "replay-out.jsonl"), repo, filepath.Join(keepDir, "cases.json"), filepath.Join(keepDir, "replay-out.jsonl"), raceFlag, filepath.Join(keepDir, "overlay.json"), pkgDir, filepath.Join(keepDir, "replay-out.jsonl"))
 		os.WriteFile(filepath.Join(keepDir, "replay.sh"), []byte(script), 0o755)
 	}
 	return results, log.String(), nil
@@ -1023,4 +1060,137 @@ func lastLines(s string, n int) string {
 		ls = ls[len(ls)-n:]
 	}
 	return strings.Join(ls, "\n")
+}
+
+// ---- race-detector replay (race.go): a scheduler lock the race detector cannot see ----
+
+const spinFile = `package errors
+
+import (
+	"runtime"
+	"time"
+)
+
+// zzXchg atomically exchanges *p and v. It is written in assembly so that the race detector does not take the
+// replay scheduler's own lock for a synchronisation of the program under test.
+func zzXchg(p *uint32, v uint32) uint32
+
+type zzSpinMutex struct{ w uint32 }
+
+//go:norace
+func (m *zzSpinMutex) Lock() {
+	for i := 0; zzXchg(&m.w, 1) != 0; i++ {
+		if i < 64 {
+			runtime.Gosched()
+		} else {
+			time.Sleep(20 * time.Microsecond)
+		}
+	}
+}
+
+//go:norace
+func (m *zzSpinMutex) Unlock() { zzXchg(&m.w, 0) }
+
+type zzSpinCond struct{ mu *zzSpinMutex }
+
+//go:norace
+func (c *zzSpinCond) Wait() {
+	c.mu.Unlock()
+	time.Sleep(50 * time.Microsecond)
+	c.mu.Lock()
+}
+
+func (c *zzSpinCond) Broadcast() {}
+`
+
+const spinAsm = `#include "textflag.h"
+
+// func zzXchg(p *uint32, v uint32) uint32
+TEXT ·zzXchg(SB), NOSPLIT, $0-20
+	MOVQ	p+0(FP), BX
+	MOVL	v+8(FP), AX
+	XCHGL	AX, 0(BX)
+	MOVL	AX, ret+16(FP)
+	RET
+`
+
+func raceClockFile() string {
+	s := clockFile
+	rep := func(old, new string) {
+		if !strings.Contains(s, old) {
+			panic("raceClockFile: pattern not found: " + old)
+		}
+		s = strings.Replace(s, old, new, 1)
+	}
+	rep("zzClockMu  sync.Mutex", "zzClockMu  zzSpinMutex")
+	rep("zzSchedMu      sync.Mutex", "zzSchedMu      zzSpinMutex")
+	rep("zzSchedCond    = sync.NewCond(&zzSchedMu)", "zzSchedCond    = &zzSpinCond{mu: &zzSchedMu}")
+	rep("\tmu    sync.Mutex\n", "\tmu    zzSpinMutex\n")
+	rep("zzGhostMu       sync.Mutex", "zzGhostMu       zzSpinMutex")
+	s = strings.ReplaceAll(s, "\nfunc ", "\n//go:norace\nfunc ")
+	return s + "\nvar _ sync.Mutex\n"
+}
+
+// parseRaceReports extracts, per replay case, the race detector's reports whose two conflicting accesses are both
+// made by code of the watched packages (not by harness or replay files).
+func parseRaceReports(out string, pkgs []string) map[int][]string {
+	res := map[int][]string{}
+	cur := -1
+	lines := strings.Split(out, "\n")
+	watched := func(fn, file string) bool {
+		base := filepath.Base(file)
+		if strings.HasPrefix(base, "zz_") {
+			return false
+		}
+		for _, p := range pkgs {
+			if strings.HasPrefix(fn, modulePath+"/"+p+".") {
+				return true
+			}
+		}
+		return false
+	}
+	for i := 0; i < len(lines); i++ {
+		l := strings.TrimRight(lines[i], "\r")
+		switch {
+		case strings.HasPrefix(l, "ZZCASE-BEGIN "):
+			fmt.Sscan(strings.TrimPrefix(l, "ZZCASE-BEGIN "), &cur)
+		case strings.HasPrefix(l, "ZZCASE-END "):
+			cur = -1
+		case strings.TrimSpace(l) == "WARNING: DATA RACE":
+			// the first two stanzas are the conflicting accesses
+			var acc []string
+			ok := true
+			j := i + 1
+			for ; j < len(lines) && !strings.HasPrefix(lines[j], "=================="); j++ {
+				h := lines[j]
+				if len(acc) < 2 && strings.Contains(h, " at 0x") && strings.HasSuffix(strings.TrimSpace(h), ":") && j+2 < len(lines) {
+					fn := strings.TrimSpace(lines[j+1])
+					if k := strings.LastIndex(fn, "("); k > 0 {
+						fn = fn[:k]
+					}
+					file := strings.TrimSpace(lines[j+2])
+					if k := strings.Index(file, " "); k > 0 {
+						file = file[:k]
+					}
+					if !watched(fn, file) {
+						ok = false
+					}
+					kind := "read"
+					if strings.Contains(strings.ToLower(h), "write") {
+						kind = "write"
+					}
+					if k := strings.LastIndex(file, ":"); k > 0 {
+						file = filepath.Base(file[:k]) + file[k:]
+					}
+					acc = append(acc, kind+" at "+file)
+				}
+			}
+			i = j
+			if ok && len(acc) == 2 && cur >= 0 {
+				sort.Strings(acc)
+				res[cur] = append(res[cur], "data race: "+acc[0]+" and "+acc[1]+" (go test -race)")
+			}
+		}
+	}
+	return res
 }
